@@ -131,7 +131,10 @@ type Store struct {
 	order  []*Row
 	Log    *CallLog
 	Suffix string // GetRegionSuffix
-	Actor  string // label attached to logged calls (see As)
+	// SuffixFor overrides Suffix for single actors (processes of one deployment that run in different regions
+	// and share a global table)
+	SuffixFor map[string]string
+	Actor     string // label attached to logged calls (see As)
 	// Gate, when set, is called before every call takes effect (schedule control).
 	Gate func(actor, op string)
 	// Backing, when set, is a real Metastore implementation (over a semantic fake of its
@@ -185,7 +188,12 @@ func (a actorStore) LoadLatest(ctx context.Context, id string) (*appencryption.E
 func (a actorStore) Store(ctx context.Context, id string, created int64, e *appencryption.EnvelopeKeyRecord) (bool, error) {
 	return a.s.store(ctx, a.actor, id, created, e)
 }
-func (a actorStore) GetRegionSuffix() string { return a.s.Suffix }
+func (a actorStore) GetRegionSuffix() string {
+	if sfx, ok := a.s.SuffixFor[a.actor]; ok {
+		return sfx
+	}
+	return a.s.Suffix
+}
 
 // For returns a Metastore whose calls are attributed to actor.
 func (s *Store) For(actor string) appencryption.Metastore { return actorStore{s, actor} }
